@@ -38,7 +38,9 @@ partial def fullRefs (j : Json) : List GName :=
         (match v with
          | .obj mm => mm.toList.filterMap fun (_, t) =>
              (match t with
-              | .str r => if r.startsWith refPrefix then some (r.drop refPrefix.length).toString.toList else none
+              -- OpenAPI allows both spellings of a mapping target: a pointer or the bare name of a component schema
+              | .str r => if r.startsWith refPrefix then some (r.drop refPrefix.length).toString.toList
+                          else if r.startsWith "#" || r.contains '/' then none else some r.toList
               | _ => none)
          | _ => [])
       else if k == "enum" || k == "example" || k == "examples" || k == "default" || k == "const" then []
